@@ -375,6 +375,29 @@ def _count_source(f, arg, at, G):
         return None, 'no definition reaches the call'
     verdict = True
     why = 'every reaching definition reads the count(s) of the rule out of the source grammar `%s`' % G
+    # the sum written as a loop:  cnt = 0;  for ...: cnt += G[...][...]
+    alld = [(n, v) for (n, v) in name_defs(f, arg.id) if at in cfg.reach(n)]
+    inits = [(n, v) for (n, v) in alld if isinstance(v, ast.Constant) and v.value == 0]
+    augs = [(n, v) for (n, v) in alld if isinstance(v, tuple) and v[0] == 'aug']
+    if inits and augs and len(inits) + len(augs) == len(alld):
+        at_loops = cfg.nodes[at].loops
+        for (n, v) in inits:
+            if not set(at_loops) <= set(cfg.nodes[n].loops):
+                outer = [l for l in at_loops if l not in cfg.nodes[n].loops]
+                return False, '`%s = 0` (line %d) is outside `%s`, the call that receives `%s` is inside it: the sum is started ' \
+                              'once and handed over for every element, each one getting the running total of those before it' % (
+                                  arg.id, cfg.nodes[n].lineno, unparse(cfg.nodes[outer[0]].ast).split('\n')[0][:50], arg.id)
+        srcs_ok = True
+        for (n, v) in augs:
+            st_ = v[1] if isinstance(v[1], ast.AugAssign) else cfg.nodes[n].ast
+            base = st_.value if isinstance(st_, ast.AugAssign) else None
+            while isinstance(base, ast.Subscript):
+                base = base.value
+            if not (isinstance(base, ast.Name) and (_derived_from(f, base.id, G) or base.id == G)):
+                srcs_ok = False
+        if srcs_ok:
+            return True, 'summed up in a loop started afresh for every rule handed over'
+        return None, 'accumulation of `%s` not recognised' % arg.id
     for (n, v) in reach:
         if not isinstance(v, ast.AST):
             # e.g. bound by `for vert, rule_cnt in G[func][lin].items()`
@@ -779,6 +802,12 @@ def r_argpos(prog, tier):
 
 # ------------------------------------------------------------------------------------ R-INVERSEMAP
 
+def root_of_name(e):
+    while isinstance(e, (ast.Subscript, ast.Attribute)):
+        e = e.value
+    return e.id if isinstance(e, ast.Name) else None
+
+
 def r_inversemap(prog, tier):
     obs = []
     f = prog.func('grammar', 'reordering_optimal')
@@ -856,7 +885,25 @@ def r_inversemap(prog, tier):
                         and unparse(a_.ast.value) == unparse(b_.ast.value):
                     verdict, why = False, 'both maps go in the same direction: variables are renamed with the permutation, not its inverse'
         if ok and not use_ok and pair is not None:
-            verdict = False
+            # the maps exist; they are used the wrong way round only if the inverse selects the right-hand sides or the
+            # forward map renames the variables
+            picks2, renames2 = set(), set()
+            base_names = set([f.params[0]]) | set(nm for nm in f.locals for (_, v_) in name_defs(f, nm)
+                                                  if isinstance(v_, ast.AST) and unparse(v_).startswith(f.params[0] + '['))
+            for n in walk_own(f.node):
+                if isinstance(n, ast.Subscript) and root_of_name(n.value) in base_names:
+                    picks2 |= set(x.id for x in ast.walk(n.slice) if isinstance(x, ast.Name))
+                if isinstance(n, ast.Tuple) and len(n.elts) == 2 and unparse(n.elts[1]).endswith('[1]'):
+                    for x in ast.walk(n.elts[0]):
+                        if isinstance(x, ast.Subscript) and isinstance(x.value, ast.Name) and unparse(x.slice).endswith('[0]'):
+                            renames2.add(x.value.id)
+            if A in picks2 and B in renames2:
+                verdict, why = True, '`%s` maps new position -> old position and selects the right-hand sides, its inverse `%s` ' \
+                                     'renames the variables' % (A, B)
+            elif B in picks2 or A in renames2:
+                verdict = False
+            else:
+                verdict = None
     obs.append(Ob('R-INVERSEMAP', f.fq, 'right-hand sides are permuted with a map and the linearization variables '
                   'renamed with its inverse', verdict, why, construct='inversemap', line=f.node.lineno))
     return obs, {}
@@ -1174,6 +1221,27 @@ def r_sortedpos(prog, tier):
                       line=it.lineno))
     if cnt < 2:
         raise Unrecognised('rcg writer: %d iterations over position dictionaries found (2 expected)' % cnt)
+    # variables are numbered from 0 in every clause: the counter starts afresh wherever the per-clause tables do
+    cfg = f.cfg
+    tabs = [m for m in cfg.eval_nodes() if m.kind == 'stmt' and isinstance(m.ast, ast.Assign) and isinstance(m.ast.targets[0], ast.Name)
+            and m.ast.targets[0].id in posd]
+    if tabs and tabs[0].loops:
+        clause_loops = set(tabs[0].loops)
+        for nm in sorted(f.locals):
+            dv = name_defs(f, nm)
+            inits = [(nid, v) for (nid, v) in dv if isinstance(v, ast.Constant) and v.value == 0]
+            augs = [(nid, v) for (nid, v) in dv if isinstance(v, tuple) and v[0] == 'aug']
+            if not inits or not augs or len(inits) + len(augs) != len(dv):
+                continue
+            if not all(clause_loops <= set(cfg.nodes[nid].loops) for (nid, _) in augs):
+                continue        # not a per-clause counter
+            fresh = all(clause_loops <= set(cfg.nodes[nid].loops) for (nid, _) in inits)
+            obs.append(Ob('R-SORTEDPOS', f.fq, 'the counter `%s` used while a clause is written starts at 0 for every clause' % nm,
+                          True if fresh else False,
+                          'initialised where the per-clause tables are' if fresh else
+                          '`%s = 0` (line %d) is outside the loop over the linearizations: the second linearization of a rule is '
+                          'written with variables numbered on from the first (`[2][3]` for `[0][1]`)' % (nm, cfg.nodes[inits[0][0]].lineno),
+                          construct='clausectr:' + nm, line=cfg.nodes[inits[0][0]].lineno))
     return obs, {}
 
 
@@ -1287,6 +1355,17 @@ def r_discont(prog, tier):
                                  'degree of the last such node wins, not the largest' % (rv, badv)
             elif good:
                 ok, why = True, 'running maximum over the nodes'
+    # shortcuts `return 0` for short sentences: three tokens are enough for a gap (a constituent over tokens 1 and 3)
+    cfg_ = f.cfg
+    for r_ in [m for m in cfg_.eval_nodes() if m.kind == 'stmt' and isinstance(m.ast, ast.Return)
+               and isinstance(m.ast.value, ast.Constant) and m.ast.value.value == 0]:
+        for fa in [x[0] for x in facts_at(cfg_, r_.id)]:
+            if fa[0] == 'cmp' and 'terminals(' in fa[1] and fa[1].startswith('len(') and fa[3].isdigit() and fa[2] in ('<', '<=', '=='):
+                most = int(fa[3]) - 1 if fa[2] == '<' else int(fa[3])       # the largest token count that takes the shortcut
+                if most >= 3:
+                    ok = False
+                    why = '`return 0` for sentences of up to %d tokens (`%s %s %s`): a constituent over the first and the third ' \
+                          'of three tokens has a gap, so three tokens are enough for gap degree 1' % (most, fa[1], fa[2], fa[3])
     obs.append(Ob('R-DISCONT/CHAIN', f.fq, 'gap_degree is the maximum of gap_degree_node over all nodes', ok, why,
                   construct='chain-max', line=f.node.lineno))
     f = prog.func('treeanalysis', 'has_gaps')
@@ -1387,73 +1466,142 @@ def r_discont(prog, tier):
                 ok, why = False, '`%s` is not "no linearization has fan-out > 1" (e.g. one continuous rule next to a ' \
                                  'discontinuous one gives the wrong answer)' % unparse(rets[0].value)[:70]
     else:
-        from ..quant import SearchLoop
-        lin_loops = {}
+        def _cf_by_loops(f):
+            cfg = f.cfg
+            ok, why = None, ''
+            from ..quant import SearchLoop
+            lin_loops = {}
 
-        def is_atom(fa):
-            if fa[0] == 'cmp' and fa[1] in ('1',) and fa[2] == '<' and fa[3].startswith('fan_out(') and fa[3].endswith(')[0]'):
-                lin_loops['v'] = fa[3][len('fan_out('):-len(')[0]')]
-                return True
-            if fa[0] == 'cmp' and fa[1] == '2' and fa[2] == '<=' and fa[3].startswith('fan_out(') and fa[3].endswith(')[0]'):
-                lin_loops['v'] = fa[3][len('fan_out('):-len(')[0]')]
-                return True
-            if fa[0] == 'cmp' and fa[3] in ('1',) and fa[2] == '<=' and fa[1].startswith('fan_out(') and fa[1].endswith(')[0]'):
-                lin_loops['v'] = fa[1][len('fan_out('):-len(')[0]')]
-                return False
-            if fa[0] == 'cmp' and fa[3] in ('1',) and fa[2] == '==' and fa[1].startswith('fan_out(') and fa[1].endswith(')[0]'):
-                lin_loops['v'] = fa[1][len('fan_out('):-len(')[0]')]
-                return False
-            return None
-        # find the variable the predicate is about
-        from ..core import _expand_fact
-        for n_ in cfg.nodes:
-            if n_.kind == 'assume':
-                fa = norm_test(n_.ast, n_.pol)
-                out_ = [(fa, 0)]
-                _expand_fact(f, fa, 0, out_)
-                for (g_, _) in out_:
-                    is_atom(g_)
-        linv = lin_loops.get('v')
-        try:
-            if linv is None:
-                raise Unrecognised('no fan-out test found')
-            loops_ = [n_ for n_ in cfg.eval_nodes() if n_.kind == 'iter']
-            el = [n_ for n_ in loops_ if linv in [x.id for x in ast.walk(n_.ast.target) if isinstance(x, ast.Name)]]
-            if not el:
-                dv = [v for (_, v) in name_defs(f, linv) if isinstance(v, ast.AST)]
-                if dv and all((isinstance(v, ast.Call) and unparse(v.func) == 'next') or
-                              (isinstance(v, ast.Subscript) and isinstance(v.slice, (ast.Constant, ast.UnaryOp))) for v in dv):
-                    raise _OneOnly(unparse(dv[0]))
-            if len(el) != 1 or len(el[0].loops) != 1:
-                raise Unrecognised('the linearization loop is not nested in exactly one loop over the rules')
-            outer = cfg.nodes[el[0].loops[0]]
-            src_ok = outer.kind == 'iter' and unparse(outer.ast.iter) in (G, G + '.keys()', G + '.values()', G + '.items()',
-                                                                         'sorted(%s)' % G, 'list(%s)' % G)
-            inner_src = unparse(el[0].ast.iter)
-            if not src_ok or G not in inner_src and unparse(outer.ast.target).split(',')[-1].strip(' ()') not in inner_src:
-                raise Unrecognised('the loops do not run over the rules of the grammar and their linearizations')
-            res = SearchLoop(f, is_atom, lambda n_: n_.id == el[0].id, element_names=[linv]).explore()
-            bad = [(v, sn, at) for (v, sn, at) in res if v is None or v != (not sn)]
-            if not bad:
-                ok, why = True, 'boolean abstraction (%d return states): the result is True exactly when no linearization ' \
-                                'with fan-out > 1 exists, whatever is visited or skipped' % len(res)
-            else:
-                v, sn, at = sorted(bad, key=lambda x: str(x))[0]
-                ok = False
-                why = 'line %d returns %s although %s' % (cfg.nodes[at].lineno, v,
-                                                         'a linearization with more than one argument exists (possibly one the '
-                                                         'loop skipped or never reached)' if sn else 'no linearization has more than one argument')
-        except _OneOnly as ex:
-            ok, why = False, 'only one linearization per rule is inspected (`%s`): a rule that is continuous in that one ' \
-                             'and discontinuous in another passes' % ex
-        except Unrecognised as ex:
-            ok, why = None, 'not followed: %s' % ex
+            def is_atom(fa):
+                if fa[0] == 'cmp' and fa[1] in ('1',) and fa[2] == '<' and fa[3].startswith('fan_out(') and fa[3].endswith(')[0]'):
+                    lin_loops['v'] = fa[3][len('fan_out('):-len(')[0]')]
+                    return True
+                if fa[0] == 'cmp' and fa[1] == '2' and fa[2] == '<=' and fa[3].startswith('fan_out(') and fa[3].endswith(')[0]'):
+                    lin_loops['v'] = fa[3][len('fan_out('):-len(')[0]')]
+                    return True
+                if fa[0] == 'cmp' and fa[3] in ('1',) and fa[2] == '<=' and fa[1].startswith('fan_out(') and fa[1].endswith(')[0]'):
+                    lin_loops['v'] = fa[1][len('fan_out('):-len(')[0]')]
+                    return False
+                if fa[0] == 'cmp' and fa[3] in ('1',) and fa[2] == '==' and fa[1].startswith('fan_out(') and fa[1].endswith(')[0]'):
+                    lin_loops['v'] = fa[1][len('fan_out('):-len(')[0]')]
+                    return False
+                return None
+            # find the variable the predicate is about
+            from ..core import _expand_fact
+            for n_ in cfg.nodes:
+                if n_.kind == 'assume':
+                    fa = norm_test(n_.ast, n_.pol)
+                    out_ = [(fa, 0)]
+                    _expand_fact(f, fa, 0, out_)
+                    for (g_, _) in out_:
+                        is_atom(g_)
+            linv = lin_loops.get('v')
+            try:
+                if linv is None:
+                    raise Unrecognised('no fan-out test found')
+                loops_ = [n_ for n_ in cfg.eval_nodes() if n_.kind == 'iter']
+                el = [n_ for n_ in loops_ if linv in [x.id for x in ast.walk(n_.ast.target) if isinstance(x, ast.Name)]]
+                if not el:
+                    dv = [v for (_, v) in name_defs(f, linv) if isinstance(v, ast.AST)]
+                    if dv and all((isinstance(v, ast.Call) and unparse(v.func) == 'next') or
+                                  (isinstance(v, ast.Subscript) and isinstance(v.slice, (ast.Constant, ast.UnaryOp))) for v in dv):
+                        raise _OneOnly(unparse(dv[0]))
+                if len(el) != 1 or len(el[0].loops) != 1:
+                    raise Unrecognised('the linearization loop is not nested in exactly one loop over the rules')
+                outer = cfg.nodes[el[0].loops[0]]
+                src_ok = outer.kind == 'iter' and unparse(outer.ast.iter) in (G, G + '.keys()', G + '.values()', G + '.items()',
+                                                                             'sorted(%s)' % G, 'list(%s)' % G)
+                inner_src = unparse(el[0].ast.iter)
+                if not src_ok or G not in inner_src and unparse(outer.ast.target).split(',')[-1].strip(' ()') not in inner_src:
+                    raise Unrecognised('the loops do not run over the rules of the grammar and their linearizations')
+                res = SearchLoop(f, is_atom, lambda n_: n_.id == el[0].id, element_names=[linv]).explore()
+                bad = [(v, sn, at) for (v, sn, at) in res if v is None or v != (not sn)]
+                if not bad:
+                    ok, why = True, 'boolean abstraction (%d return states): the result is True exactly when no linearization ' \
+                                    'with fan-out > 1 exists, whatever is visited or skipped' % len(res)
+                else:
+                    v, sn, at = sorted(bad, key=lambda x: str(x))[0]
+                    ok = False
+                    why = 'line %d returns %s although %s' % (cfg.nodes[at].lineno, v,
+                                                             'a linearization with more than one argument exists (possibly one the '
+                                                             'loop skipped or never reached)' if sn else 'no linearization has more than one argument')
+            except _OneOnly as ex:
+                ok, why = False, 'only one linearization per rule is inspected (`%s`): a rule that is continuous in that one ' \
+                                 'and discontinuous in another passes' % ex
+            except Unrecognised as ex:
+                ok, why = None, 'not followed: %s' % ex
+            return ok, why
+        ok, why = _cf_by_loops(f)
+        if ok is None:
+            # `if all(P(x) for x in xs): ...` / `any(...)` inside the loops: spelled out as a flag loop, then the same exploration
+            g2 = _desugar_quantifier_tests(f)
+            if g2 is not None:
+                ok2, why2 = _cf_by_loops(g2)
+                if ok2 is not None:
+                    ok, why = ok2, why2 + ' (any()/all() conditions spelled out as loops)'
     obs.append(Ob('R-DISCONT/CHAIN', f.fq, 'a grammar is context-free iff no linearization has more than one argument',
                   ok, why, construct='chain-cf', line=f.node.lineno))
     return obs, {}
 
 
 # ------------------------------------------------------------------------------------ R-PAIRUSE
+
+def _desugar_quantifier_tests(f):
+    """A copy of function f in which every `if [not] all/any(<E> for x in <it>): ...` is written as a flag loop followed by
+    the `if` on the flag; None if there is nothing to rewrite."""
+    import copy
+    from ..core import Func
+    node = copy.deepcopy(f.node)
+    count = [0]
+
+    def rewrite(stmts):
+        out = []
+        for st in stmts:
+            for fld in ('body', 'orelse', 'finalbody'):
+                sub = getattr(st, fld, None)
+                if isinstance(sub, list) and sub and isinstance(sub[0], ast.stmt) and not isinstance(st, (ast.FunctionDef, ast.ClassDef)):
+                    setattr(st, fld, rewrite(sub))
+            if isinstance(st, ast.If):
+                t = st.test
+                neg = False
+                if isinstance(t, ast.UnaryOp) and isinstance(t.op, ast.Not):
+                    t, neg = t.operand, True
+                if isinstance(t, ast.Call) and isinstance(t.func, ast.Name) and t.func.id in ('all', 'any') and len(t.args) == 1 \
+                        and isinstance(t.args[0], (ast.GeneratorExp, ast.ListComp)) and len(t.args[0].generators) == 1 \
+                        and not t.args[0].generators[0].ifs:
+                    g = t.args[0]
+                    count[0] += 1
+                    flag = '__q%d' % count[0]
+                    is_all = t.func.id == 'all'
+                    init = ast.Assign(targets=[ast.Name(id=flag, ctx=ast.Store())], value=ast.Constant(value=is_all))
+                    cond = ast.UnaryOp(op=ast.Not(), operand=g.elt) if is_all else g.elt
+                    setf = ast.Assign(targets=[ast.Name(id=flag, ctx=ast.Store())], value=ast.Constant(value=not is_all))
+                    tgt = copy.deepcopy(g.generators[0].target)
+                    for x in ast.walk(tgt):
+                        if isinstance(x, ast.Name):
+                            x.ctx = ast.Store()
+                    loop = ast.For(target=tgt, iter=g.generators[0].iter,
+                                   body=[ast.If(test=cond, body=[setf, ast.Break()], orelse=[])], orelse=[])
+                    newtest = ast.Name(id=flag, ctx=ast.Load())
+                    st.test = ast.UnaryOp(op=ast.Not(), operand=newtest) if neg else newtest
+                    for x in (init, loop):
+                        ast.copy_location(x, st)
+                        ast.fix_missing_locations(x)
+                    ast.fix_missing_locations(st)
+                    out.extend([init, loop, st])
+                    continue
+            out.append(st)
+        return out
+    node.body = rewrite(node.body)
+    if not count[0]:
+        return None
+    ast.fix_missing_locations(node)
+    try:
+        compile(ast.Module(body=[node], type_ignores=[]), '<desugared>', 'exec')
+    except Exception:
+        return None
+    return Func(f.module, node, f.cls)
+
 
 def r_pairuse(prog, tier):
     """binarize_rule receives a bare production and *its* linearization: when the production comes out of the
@@ -1482,6 +1630,25 @@ def r_pairuse(prog, tier):
                     elif set(un0) == set(un1) and all(un0[k][2] == 0 and un1[k][2] == 1 and un0[k][1] is un1[k][1] for k in un0):
                         ok, why = True, '`%s` and `%s` are the two results of the same call `%s`' % (
                             a0.id, a1.id, unparse(list(un0.values())[0][1])[:50])
+                        # ... on every path: no later re-binding of one of the two that leaves the other from the call
+                        ids0, ids1 = frozenset(d0), frozenset(d1)
+                        for k0, v0 in d0.items():
+                            for k1, v1 in d1.items():
+                                if k0 == k1 or not ((k0 in un0) ^ (k1 in un1)):
+                                    continue
+                                # can both definitions be the ones in force at the call?
+                                first, second = (k0, k1) if k1 in cfg.reach(k0, avoid=ids0 - {k0}) else (
+                                    (k1, k0) if k0 in cfg.reach(k1, avoid=ids1 - {k1}) else (None, None))
+                                if first is None:
+                                    continue
+                                if n.id in cfg.reach(second, avoid=(ids0 | ids1) - {k0, k1}) or n.id == second:
+                                    later_is_plain = second not in un0 and second not in un1
+                                    if later_is_plain and cfg.can_reach(first, second):
+                                        ok = False
+                                        why = 'after the reordering call `%s` is re-bound (line %d) while `%s` keeps what the call ' \
+                                              'returned: right-hand sides and variables no longer belong together' % (
+                                                  a0.id if second == k0 else a1.id, cfg.nodes[second].lineno,
+                                                  a1.id if second == k0 else a0.id)
                     elif un0 and not un1:
                         ok = False
                         why = '`%s` may be the reordered production (`%s`) but `%s` is never the linearization that call ' \
